@@ -41,7 +41,7 @@
 (***************************************************************************)
 EXTENDS Integers, Sequences, FiniteSets, TLC, Json, IOUtils
 
-CONSTANTS Profile,   \* "cmd" | "struct" | "lex" | "word" | "wordall" | "soup"
+CONSTANTS Profile,   \* "cmd" | "struct" | "hd" | "lex" | "word" | "wordall" | "soup"
           MaxTok,    \* bound on the number of tokens of a derivation
           MaxUnits   \* bound on the number of units of a generated word (profiles word*)
 
@@ -680,6 +680,9 @@ Compatible(a, b) ==
 WordOK(us) == \A i \in 1..(Len(us) - 1) : Compatible(us[i], us[i + 1])
 
 Prof == Profile
+(* the bounds can be overridden from the environment (one cfg per profile) *)
+TokBound == IF "MAXTOK" \in DOMAIN IOEnv THEN NumOf(IOEnv.MAXTOK) ELSE MaxTok
+UnitBound == IF "MAXUNITS" \in DOMAIN IOEnv THEN NumOf(IOEnv.MAXUNITS) ELSE MaxUnits
 Lex == Prof = "lex"
 CmdW   == IF Lex THEN Words({"a", "export", "command", ":"}) ELSE Words({"a"})
 KwW    == Words({"if", "{", "!", "done"})     \* reserved words where they are ordinary words
@@ -727,6 +730,9 @@ Alts(sym) ==
     [] n = "PL" -> {<<NT("PC")>>, <<WL("!"), NT("PC")>>}
     [] n = "PC" -> {<<NT("C")>>, <<NT("C"), Op("|"), LbTok, NT("PC")>>}
     [] n = "C" -> IF Prof = "struct" THEN {<<WL("a")>>, <<NT("CC")>>, <<NT("FD")>>}
+                  ELSE IF Prof = "hd"     \* here-documents against every newline of the grammar
+                  THEN {<<WL("a")>>, <<WL("a"), HereOp("<<", <<Lit("b\n")>>), WL("E")>>, <<NT("CC")>>,
+                        <<NT("CC"), HereOp("<<-", <<Lit("c\n")>>), WL("F")>>}
                   ELSE {<<NT("SC")>>, <<NT("CC")>>, <<NT("CC"), NT("RS")>>, <<NT("FD")>>}
     [] n = "RS" -> {<<NT("R")>>, <<NT("R"), NT("RS")>>}
     [] n = "SC" -> {<<NT("PRE")>>, <<NT("PRE"), NT("cw"), NT("SUF")>>, <<NT("cw"), NT("SUF")>>}
@@ -788,7 +794,7 @@ WordSteps(sym) ==
       joins(u) == us # <<>> /\ n = 0 /\ u.t = "lit"
       ok(u) == us = <<>> \/ joins(u) \/ Compatible(last, u)
       app(u) == IF joins(u) THEN <<Lit(last.s \o u.s)>> ELSE Append(us, u)
-  IN (IF n < MaxUnits THEN {<<NTW(WordName(n + 1), app(u))>> : u \in {v \in WordUnits : ok(v)}} ELSE {})
+  IN (IF n < UnitBound THEN {<<NTW(WordName(n + 1), app(u))>> : u \in {v \in WordUnits : ok(v)}} ELSE {})
      \cup (IF us # <<>> THEN {<<W(us)>>} ELSE {})
 
 (* minimal number of tokens a nonterminal still needs (for pruning)        *)
@@ -842,13 +848,13 @@ Init == sf = IF Prof = "soup" THEN <<>>
 
 Next ==
   IF Prof = "soup"
-  THEN /\ Len(sf) < MaxTok
+  THEN /\ Len(sf) < TokBound
        /\ \E t \in SoupAlphabet : sf' = Append(sf, t)
   ELSE /\ ~Complete(sf)
        /\ LET i == FirstNT(sf)
           IN \E alt \in (IF IsWD(sf[i]) THEN WordSteps(sf[i]) ELSE Alts(sf[i])) :
                LET f == Expand(sf, i, alt)
-               IN /\ RealToks(f) + NeedFrom(f, 1) <= MaxTok
+               IN /\ RealToks(f) + NeedFrom(f, 1) <= TokBound
                   /\ sf' = f
 
 Spec == Init /\ [][Next]_sf
